@@ -106,3 +106,181 @@ macro "decoder_no_panic" : tactic => `(tactic| (
     | split)))
 
 end Codec
+
+/-! ## level 0 (cursor arithmetic of `ReadBuf` / `WriteBuf`) refines level 1 -/
+
+namespace Codec
+open Codec
+
+namespace RBuf
+
+theorem rem_length (b : RBuf) (h : b.Inv) : b.rem.length = b.left := by
+  unfold rem Inv at *
+  simp [List.length_take, List.length_drop]; omega
+
+theorem new_inv (d : List Nat) : (new d).Inv := by simp [new, Inv]
+theorem new_rem (d : List Nat) : (new d).rem = d := by simp [new, rem]
+
+/-- `as_slice()` never panics under the invariant and is the remaining bytes -/
+theorem asSlice_eq (b : RBuf) (h : b.Inv) : b.asSlice = .ok b.rem := by
+  unfold asSlice slice rem Inv at *
+  have : b.off ≤ b.off + b.left ∧ b.off + b.left ≤ b.data.length := by omega
+  simp [this]
+
+/-- **`le_u8` refines the list reader**, preserves the invariant, cannot panic -/
+theorem leU8_refines (b : RBuf) (h : b.Inv) :
+    match b.leU8 with
+    | .ok (x, b') => Rd.u8 b.rem = .ok (x, b'.rem) ∧ b'.Inv
+    | .error e => Rd.u8 b.rem = .error e := by
+  unfold leU8
+  by_cases hl : b.left ≥ 1
+  · have hoff : b.off < b.data.length := by unfold Inv at h; omega
+    have hsub : ¬ (b.left < 1) := by omega
+    simp only [hl, if_true, index, List.getElem?_eq_getElem hoff, advance, csub, bind, Except.bind, pure, Except.pure]
+    refine ⟨?_, ?_⟩
+    · unfold rem
+      simp only
+      have hd : b.data.drop b.off = b.data[b.off] :: b.data.drop (b.off + 1) := List.drop_eq_getElem_cons hoff
+      obtain ⟨k, hk⟩ : ∃ k, b.left = k + 1 := ⟨b.left - 1, by omega⟩
+      rw [hd, hk, List.take_succ_cons]
+      simp [Rd.u8]
+    · unfold Inv at *; simp only; omega
+  · have hlen := rem_length b h
+    have : b.rem = [] := by
+      apply List.eq_nil_of_length_eq_zero; omega
+    simp [hl, this, Rd.u8]
+
+/-- **`parse_as_array::<N>` refines the list reader** -/
+theorem parseArr_refines (b : RBuf) (n : Nat) (h : b.Inv) :
+    match b.parseArr n with
+    | .ok (a, b') => Rd.arr n b.rem = .ok (a, b'.rem) ∧ b'.Inv
+    | .error e => Rd.arr n b.rem = .error e := by
+  unfold parseArr
+  have hlen := rem_length b h
+  by_cases hl : b.left ≥ n
+  · have h1 : b.off ≤ b.off + n ∧ b.off + n ≤ b.data.length := by unfold Inv at h; omega
+    have h2 : n ≤ b.left := hl
+    simp only [hl, if_true, slice, h1, and_self, advance, csub, h2, bind, Except.bind, pure, Except.pure]
+    refine ⟨?_, ?_⟩
+    · have hn : n ≤ b.rem.length := by omega
+      simp only [Rd.arr, hn, if_true]
+      unfold rem
+      simp only
+      have m1 : min n b.left = n := by omega
+      have m2 : b.off + n - b.off = n := by omega
+      rw [List.take_take, List.drop_take, List.drop_drop, m1, m2]
+    · unfold Inv at *; simp only; omega
+  · have hn : ¬ (n ≤ b.rem.length) := by omega
+    simp [hl, Rd.arr, hn]
+
+/-- **`tail(n)` refines the list operation** -/
+theorem tail_refines (b : RBuf) (n : Nat) (h : b.Inv) :
+    match b.tail n with
+    | .ok (t, b') => Rd.tail n b.rem = .ok (t, b'.rem) ∧ b'.Inv
+    | .error e => Rd.tail n b.rem = .error e := by
+  unfold tail
+  have hlen := rem_length b h
+  by_cases hl : n ≤ b.left
+  · have h1 : n ≤ b.off + b.left := by omega
+    have h2 : b.off + b.left - n ≤ b.off + b.left ∧ b.off + b.left ≤ b.data.length := by unfold Inv at h; omega
+    simp only [hl, if_true, csub, h1, slice, h2, and_self, bind, Except.bind, pure, Except.pure]
+    refine ⟨?_, ?_⟩
+    · have hn : n ≤ b.rem.length := by omega
+      simp only [Rd.tail, hn, if_true, hlen]
+      unfold rem
+      simp only
+      have e1 : b.off + b.left - (b.off + b.left - n) = n := by omega
+      have e2 : b.off + (b.left - n) = b.off + b.left - n := by omega
+      have e3 : b.left - (b.left - n) = n := by omega
+      have m1 : min (b.left - n) b.left = b.left - n := by omega
+      rw [List.drop_take, List.drop_drop, List.take_take, e1, e2, e3, m1]
+      simp [hl]
+    · unfold Inv at *; simp only; omega
+  · have hn : ¬ (n ≤ b.rem.length) := by omega
+    simp [hl, Rd.tail, hn]
+
+/-- no primitive of `ReadBuf` can panic on a buffer built by `new` and advanced by these primitives -/
+theorem primitives_np (b : RBuf) (h : b.Inv) (n : Nat) :
+    NoPanic b.leU8 ∧ NoPanic (b.parseArr n) ∧ NoPanic (b.tail n) ∧ NoPanic b.asSlice := by
+  refine ⟨?_, ?_, ?_, ?_⟩
+  · have := leU8_refines b h
+    cases hr : b.leU8 with
+    | ok p => exact NoPanic.ok _
+    | error e =>
+      rw [hr] at this; simp only at this
+      have hn := Rd.u8_np b.rem
+      rw [this, noPanic_iff] at hn
+      exact NoPanic.err (by simpa using hn)
+  · have := parseArr_refines b n h
+    cases hr : b.parseArr n with
+    | ok p => exact NoPanic.ok _
+    | error e =>
+      rw [hr] at this; simp only at this
+      have hn := Rd.arr_np n b.rem
+      rw [this, noPanic_iff] at hn
+      exact NoPanic.err (by simpa using hn)
+  · have := tail_refines b n h
+    cases hr : b.tail n with
+    | ok p => exact NoPanic.ok _
+    | error e =>
+      rw [hr] at this; simp only at this
+      have hn := Rd.tail_np n b.rem
+      rw [this, noPanic_iff] at hn
+      exact NoPanic.err (by simpa using hn)
+  · rw [asSlice_eq b h]; exact NoPanic.ok _
+
+end RBuf
+
+namespace WBuf
+
+theorem new_inv (n : Nat) : (new n).Inv := by simp [new, Inv]
+
+theorem written_length (w : WBuf) (h : w.Inv) : w.written.length = w.stop - w.start := by
+  unfold written Inv at *
+  simp [List.length_take, List.length_drop]; omega
+
+theorem asSlice_eq (w : WBuf) (h : w.Inv) : w.asSlice = .ok w.written := by
+  unfold asSlice RBuf.slice written Inv at *
+  have : w.start ≤ w.stop ∧ w.stop ≤ w.buf.length := by omega
+  simp [this]
+
+/-- **`append` (and every `le_*` writer) either appends exactly the bytes or answers `NoSpace`; it
+preserves the invariant and cannot panic** -/
+theorem append_spec (w : WBuf) (src : List Nat) (h : w.Inv) :
+    if w.stop + src.length ≤ w.bufSize then
+      ∃ w', w.append src = .ok w' ∧ w'.written = w.written ++ src ∧ w'.Inv ∧ w'.start = w.start ∧ w'.bufSize = w.bufSize
+    else w.append src = .error .noSpace := by
+  unfold append
+  by_cases hs : w.stop + src.length ≤ w.bufSize
+  · obtain ⟨h1, h2, h3⟩ := h
+    have hb : w.stop + src.length ≤ w.buf.length := by omega
+    simp only [hs, if_true, blit, hb, bind, Except.bind, pure, Except.pure]
+    refine ⟨_, rfl, ?_, ?_, rfl, rfl⟩
+    · unfold written
+      simp only
+      have hst : w.start ≤ w.stop := h1
+      have e1 : w.stop + src.length - w.start = (w.stop - w.start) + src.length := by omega
+      rw [e1]
+      have hlen : (w.buf.take w.stop).length = w.stop := by simp; omega
+      -- drop start of (take stop ++ src ++ rest)
+      rw [List.append_assoc, List.drop_append_of_le_length (by rw [hlen]; exact hst)]
+      rw [List.take_append]
+      have hl2 : ((w.buf.take w.stop).drop w.start).length = w.stop - w.start := by simp; omega
+      rw [hl2]
+      have e2 : w.stop - w.start + src.length - (w.stop - w.start) = src.length := by omega
+      rw [e2, List.take_of_length_le (by rw [hl2]; omega)]
+      congr 1
+      · rw [List.drop_take]
+      · simp
+    · refine ⟨by simp only; omega, by simp only; omega, ?_⟩
+      simp [List.length_append, List.length_take, List.length_drop]; omega
+  · simp [hs]
+
+theorem append_np (w : WBuf) (src : List Nat) (h : w.Inv) : NoPanic (w.append src) := by
+  have := append_spec w src h
+  split at this
+  · obtain ⟨w', hw, _⟩ := this; rw [hw]; exact NoPanic.ok _
+  · rw [this]; exact NoPanic.err (by decide)
+
+end WBuf
+end Codec
